@@ -140,6 +140,23 @@ fn zero_width_case(r: &mut StdRng) -> (Shape, Val) {
     }
 }
 
+/// strings, sequences and maps whose element count sits on a varint length boundary (1/2/3-byte prefixes)
+fn length_boundary_case(r: &mut StdRng, k: u64, big: bool) -> (Shape, Val) {
+    use Shape as S;
+    const LENS: [usize; 6] = [127, 128, 129, 16383, 16384, 16385];
+    // one long case per run (costly to validate), the others on the one/two-byte boundary
+    let l = if big { LENS[3 + (k % 3) as usize] } else { LENS[(k % 3) as usize] };
+    match (k / 3) % 3 {
+        0 => (S::Str, Val::Str((0..l).map(|_| b'a' + r.gen_range(0..26)).collect())),
+        1 => (S::Seq(Box::new(S::U8)), Val::Seq((0..l).map(|_| Val::U8(r.gen())).collect())),
+        _ => {
+            let l = l.min(129); // maps: keys must be distinct strings in ascending order
+            let keys: Vec<Vec<u8>> = (0..l).map(|j| format!("k{j:05}").into_bytes()).collect();
+            (S::Map(Box::new(S::Str), Box::new(S::Bool)), Val::Map(keys.into_iter().map(|kk| (Val::Str(kk), Val::Bool(r.gen()))).collect()))
+        }
+    }
+}
+
 fn run_agree(a: &Args) {
     let n = a.num("n", 100);
     let seed = a.num("seed", 1);
@@ -151,7 +168,7 @@ fn run_agree(a: &Args) {
         vcommon::obs::mark_case(&marker, &format!("dyn:{seed}:{i}"));
         // every 8th case: sequences and maps whose elements occupy no bytes on the wire (more elements than bytes
         // left in the input), bare, last in a struct and followed by another field
-        let directed = if i % 8 == 5 { Some(zero_width_case(&mut r)) } else { None };
+        let directed = if i % 8 == 5 { Some(zero_width_case(&mut r)) } else if i % 16 == 3 { Some(length_boundary_case(&mut r, seed * 7 + i / 16, i == 3)) } else { None };
         let (s, tree) = loop {
             let s = if let Some((s, _)) = &directed { s.clone() } else if i % 4 == 0 { gen::leaf_shape(&mut r) } else { gen::gshape(&mut r, 3) };
             if let Some(t) = schema_of(&s) {
